@@ -7,7 +7,9 @@ Monitors (all on the real coba.random code):
      equal-seed instances (built by constructor / pickle / copy) while equal-seed instances, other instances, the
      coba.random module functions and Python's random are driven in between; in lock step with an equal-seed twin;
      through the module functions after coba.random.seed(seed); and in a child process started with a different
-     PYTHONHASHSEED.  Every result list must equal R;
+     PYTHONHASHSEED.  Every result list must equal R; so must the run in which the mutable arguments (sequences, weights,
+     shuffle inputs) are NOT fresh objects but long-lived buffers the caller updates in place between the calls: the
+     values are a function of the seed and the argument VALUES of the call sequence, not of object identity/history;
  (c) adversarial seeds: the LCG s <- (116646453 s + 9) mod 2^30 is inverted so that a chosen state (uniform 0.0, the
      largest uniform, the smallest positive one, cumulative-weight / floor thresholds) lands on a chosen draw of a chosen
      call after an arbitrary prefix; the LCG state read from the generator frame confirms the target was reached;
@@ -23,8 +25,9 @@ from vf.lcg_c05 import A, C, M, M1, step, jump, seed_for, state_of, draws_betwee
 ID    = "C05"
 LEVEL = "exploration"
 RULE  = ("seeded call scripts over the 9 CobaRandom methods x int/float/str seeds x argument classes (bounds in the "
-         "2^20 box incl. its corners, weights with leading/embedded/trailing zeros, lengths 0/1/2/many), each run solo "
-         "under the postconditions and replayed under 5 interference families + twin + module route + child process; "
+         "2^20 box incl. its corners, weights with leading/embedded/trailing zeros, lengths 0/1/2/many, sequences with distinct members and with equal members "
+         "at several positions incl. 1/1.0/True; pmf-style histories of weighted draws over one action set), each run solo "
+         "under the postconditions and replayed under 5 interference families + twin + module route + child process + re-used/in-place-updated argument objects; "
          "adversarial seeds by LCG inversion for every draw position of every method; a case is one method call in the "
          "solo run (or one replay/sweep chunk); distinct & non-trivial = distinct (method, LCG state class of the "
          "uniforms the call consumed, argument class) with at least one uniform consumed")
@@ -38,14 +41,18 @@ REQUIRED = ["contract.random.in_range", "contract.randoms.in_range", "contract.r
             "oracle.purity.plain-rerun", "oracle.purity.noise=equal-seed-instances", "oracle.purity.noise=other-instances",
             "oracle.purity.noise=module-functions", "oracle.purity.noise=python-random", "oracle.purity.noise=mixed",
             "oracle.purity.twin", "oracle.purity.module-route", "oracle.purity.child-process",
-            "oracle.purity.child-unpickle", "oracle.purity.route=pickle", "oracle.purity.route=copy", "oracle.purity.route=deepcopy",
+            "oracle.purity.child-unpickle", "oracle.purity.reused-argument-objects", "workload.choicew.weighted.equal-members",
+            "oracle.purity.route=pickle", "oracle.purity.route=copy", "oracle.purity.route=deepcopy",
             "adversarial.reached.u=0", "adversarial.reached.u=largest", "adversarial.reached.threshold",
             "oracle.attain.randint", "oracle.shuffle.iterator-permutation", "model.calls_following_lcg"]
 ASSUMPTIONS = [
     "seed=None is excluded (time-seeded by design); every other int, float (incl. nan/inf) and str seed is in scope",
     "uniform bounds: |min|,|max| <= 2^20 and max-min >= 2^-20; gauss mu/sigma within 2^20; outside that nothing is asserted",
-    "weights are non-negative with a positive sum and as long as the sequence (documented precondition); choicew runs on "
-    "sequences with distinct members so 'that member's weight' is unambiguous",
+    "weights are non-negative with a positive sum and as long as the sequence (documented precondition); sequences may hold equal "
+    "members at several positions (also 1 / 1.0 / True): a returned (item, w) is accepted when SOME position holds a member equal to "
+    "item whose weight is w and w > 0 (which of several equal members was drawn is not observable, so nothing more is demanded)",
+    "re-used argument objects: the caller only updates its own lists between calls (never during one); tuples/ranges/numbers are "
+    "immutable and are passed as they are",
     "choice/choicew on an empty sequence may raise anything but must not return a value; any other call in the domain must not raise",
     "randint/randints 'in [a,b]' is read with the documented *inclusive* upper bound: on ranges of <= 4 values every value "
     "must be attained within 256 consecutive draws (a correct uniform generator misses one with probability < 1e-30)",
@@ -122,6 +129,17 @@ def gen_members(rng, n):
     if kind == "negint": return [-(i + 1) for i in range(n)]
     return [f"m{i}" for i in rng.sample(range(100), n)]
 
+MIXED = [1, 1.0, True, 0, 0.0, False, 2, 2.0, -1, -1.0]      # equal values of different types are equal members
+def gen_equal_members(rng, n):
+    """n >= 2 members of which at least two positions compare equal (the same action offered twice, 1 next to 1.0, ...)"""
+    kind = rng.choice(["str", "int", "mixed"])
+    pool = ([f"m{i}" for i in rng.sample(range(100), max(1, n // 2))] if kind == "str" else
+            rng.sample(range(50), max(1, n // 2)) if kind == "int" else rng.sample(MIXED, min(len(MIXED), max(2, n // 2 + 1))))
+    seq = [rng.choice(pool) for _ in range(n)]
+    if len(set(seq)) == n:                                   # (only possible for "mixed" with few positions)
+        i, j = rng.sample(range(n), 2); seq[j] = seq[i]
+    return seq
+
 def gen_weights(rng, n):
     style = rng.choice(["dyadic-zeros", "dyadic-zeros", "ints", "normalised", "floats", "one-hot"])
     if style == "dyadic-zeros": w = [rng.choice([0, 0, 1, 2, 3, 4]) / rng.choice([1, 2, 4, 8]) for _ in range(n)]
@@ -147,11 +165,15 @@ def gen_call(rng, small=False):
     if m == "shuffle":
         n = rng.choice([0, 1, 2, 3, 5] if small else [0, 1, 2, 3, 5, 8, 20, 64])
         mode = rng.choice(["list", "inplace", "tuple", "range", "iter"])
+        if mode != "range" and n >= 2 and rng.random() < .25: return ["shuffle", gen_equal_members(rng, n), mode]
         return ["shuffle", list(range(n)) if mode == "range" else gen_members(rng, n), mode]
     if m in ("choice", "choicew"):
         n = rng.choice([0, 1, 2, 3, 5] if small else [0, 1, 1, 2, 2, 3, 5, 9, 40])
         cont = rng.choice(["list", "tuple", "range"])
-        seq = list(range(n)) if cont == "range" else gen_members(rng, n)
+        if n >= 2 and rng.random() < .35:
+            cont = rng.choice(["list", "tuple"]); seq = gen_equal_members(rng, n)
+        else:
+            seq = list(range(n)) if cont == "range" else gen_members(rng, n)
         w = None if (n == 0 or rng.random() < .3) else gen_weights(rng, n)
         return [m, seq, w, cont]
     if m == "gauss":
@@ -173,6 +195,34 @@ def build_args(call):
         return (seq,) if w is None else (seq, list(w))
     return tuple(call[1:])
 
+class ReusedArgs:
+    """builds the arguments of each call with the VALUES of the call but out of objects that outlive the call: the caller keeps
+    one list per role (weights / sequence / shuffle input) and updates it in place before handing it over again, the way a
+    learner keeps its pmf in a pre-allocated buffer.  `per_length`: one buffer per role and length instead of one per role;
+    `elementwise`: update by item assignment where the length allows it, else by slice assignment."""
+    def __init__(self, per_length=False, elementwise=False):
+        self.per_length, self.elementwise = per_length, elementwise
+        self.bufs, self.handed, self.reuses = {}, set(), 0
+    def _buf(self, role, values):
+        key = (role, len(values)) if self.per_length else role
+        b = self.bufs.setdefault(key, [])
+        if key in self.handed: self.reuses += 1
+        self.handed.add(key)
+        if self.elementwise and len(b) == len(values):
+            for i, v in enumerate(values): b[i] = v
+        else: b[:] = values
+        return b
+    def __call__(self, call):
+        m = call[0]
+        if m == "shuffle" and call[2] in ("list", "inplace"):
+            b = self._buf("items", call[1])
+            return (b,) if call[2] == "list" else (b, True)
+        if m in ("choice", "choicew"):
+            seq, w, cont = call[1], call[2], call[3]
+            seq = self._buf("seq", seq) if cont == "list" else build_args(call)[0]
+            return (seq,) if w is None else (seq, self._buf("weights", w))
+        return build_args(call)
+
 def expects_raise(call):
     return call[0] in ("choice", "choicew") and len(call[1]) == 0
 
@@ -182,6 +232,11 @@ def _bounds_class(b):
     lo, hi = b
     rel = (hi - lo) / max(abs(lo), abs(hi))
     return "narrow-far-from-zero" if rel < 2.0**-20 else "ordinary"
+def _members_class(seq):
+    try: distinct = len(set(seq)) == len(seq)
+    except TypeError: return "unhashable"
+    if distinct: return "distinct"
+    return "equal-members" if len(set(map(repr, seq))) == len(set(seq)) else "equal-members-mixed-type"
 def _weight_flags(w):
     if w is None: return "unweighted"
     nz = [i for i, x in enumerate(w) if x > 0]
@@ -201,7 +256,7 @@ def arg_sig(call):
         return ("range=1-value" if n == 1 else "range<=16" if n <= 16 else "range<=2^30" if n <= M else "range>2^30") + ("/a=0" if a == 0 and m == "randints" else "")
     if m == "shuffle": return f"mode={call[2]}"
     if m in ("choice", "choicew"):
-        return "empty-seq" if not call[1] else ("unweighted" if call[2] is None else "weighted")
+        return "empty-seq" if not call[1] else ("unweighted" if call[2] is None else "weighted") + ("" if _members_class(call[1]) == "distinct" else "+equal-members")
     return "args=" + ("default" if len(call) == (1 if m == "gauss" else 2) else "given")
 
 def sig_args(call):
@@ -214,8 +269,8 @@ def arg_class(call):
     if m == "randoms": b = call[2:]; return (_nclass(call[1]), _bounds_class(b), _sign(b))
     if m == "randint": return (arg_sig(call), _sign(call[1:]))
     if m == "randints": return (_nclass(call[1]), arg_sig(call), _sign(call[2:]))
-    if m == "shuffle": return (_nclass(len(call[1])), call[2])
-    if m in ("choice", "choicew"): return (_nclass(len(call[1])), _weight_flags(call[2]) if call[1] else "empty", call[3])
+    if m == "shuffle": return (_nclass(len(call[1])), call[2], _members_class(call[1]))
+    if m in ("choice", "choicew"): return (_nclass(len(call[1])), _weight_flags(call[2]) if call[1] else "empty", call[3], _members_class(call[1]))
     if m == "gauss": return (arg_sig(call),)
     return (_nclass(call[1]), arg_sig(call))
 def _sign(b):
@@ -224,9 +279,9 @@ def _sign(b):
     return "neg" if hi <= 0 else "pos" if lo >= 0 else "straddle"
 
 # ========================================================================================== execution
-def do_call(target, call):
+def do_call(target, call, build=build_args):
     """-> (record, value); record = ['ok', repr] | ['raise', type] | ['contract', tag, mode]"""
-    args = build_args(call)
+    args = build(call)
     try:
         v = getattr(target, call[0])(*args)
     except ContractBroken as e:
@@ -235,11 +290,11 @@ def do_call(target, call):
         return ["raise", type(e).__name__, str(e)[:120]], None
     return ["ok", repr(v)], v
 
-def exec_plain(target, script, between=None):
+def exec_plain(target, script, between=None, build=build_args):
     out = []
     for i, call in enumerate(script):
         if between: between(i)
-        out.append(do_call(target, call)[0][:2])
+        out.append(do_call(target, call, build)[0][:2])
     return out
 
 def make_instance(seed, route):
@@ -367,6 +422,8 @@ def check_script(spec, ctx=None):
             sc += "@box-muller-input-" + ("1" if states.index(0) % 2 == 0 else "2")
         if ctx: ctx.case((m, state_class(states), arg_class(call), "adv" if adv else "gen"), nontrivial=bool(nd))
         R.append(rec[:2]); drew.append(bool(nd) or nd is None)
+        if m in ("choice", "choicew") and call[1] and call[2] is not None and _members_class(call[1]) != "distinct":
+            note(f"workload.{m}.weighted.equal-members")
         bad = None
         if rec[0] == "contract":
             bad = (f"{m}/{sig_args(call)}{rec[2]}/{sc}", f"call #{i} {call} broke postcondition {rec[1]} ({rec[2]}) with LCG state before the call {sb}")
@@ -409,6 +466,25 @@ def check_script(spec, ctx=None):
         for route in routes[1:]:
             note("oracle.purity.route=" + route)
             if not judge("route=" + route, exec_plain(make_instance(seed, route), script)): return viol, None
+        # the same argument VALUES handed over in re-used objects that the caller updates in place between the calls
+        for j, (per_length, elementwise) in enumerate([(False, False), (True, True)]):
+            shared = ReusedArgs(per_length, elementwise)
+            x = make_instance(seed, routes[(nseed + j) % 4]) if j else CobaRandom(seed)
+            if j and nseed % 3 == 0:                              # ... through the module functions
+                cr.seed(seed); x = cr
+            got = exec_plain(x, script, build=shared)
+            cr._random = saved
+            if not shared.reuses: continue                        # no object was handed over twice: nothing beyond plain-rerun
+            mode = "reused-argument-objects"
+            note("oracle.purity." + mode)
+            if ctx: ctx.case(("purity", mode, "buffer-per-length" if per_length else "one-buffer-per-role"), nontrivial=True)
+            d = first_diff(R, got)
+            if d is not None:
+                c = script[d] if d < len(script) else ["?"]
+                viol.append((f"purity/{mode}/{c[0]}/{sig_args(c).replace('+equal-members', '')}" + ("contract-broken" if d < len(got) and got[d][0] == "contract" else "other-value"),
+                             f"{mode} ({'one buffer per role and length, item assignment' if per_length else 'one buffer per role, slice assignment'}): "
+                             f"call #{d} {c} gave {got[d] if d < len(got) else None}, the run with fresh equal objects gave {R[d] if d < len(R) else None}"))
+                return viol, R
         for j, fam in enumerate(FAMILIES):
             x = make_instance(seed, routes[(nseed + j) % 4])
             if not judge("noise=" + fam, exec_plain(x, script, Noise(fam, seed, nseed * 7 + j))): return viol, R
@@ -504,7 +580,27 @@ def child_main():
     json.dump({"results": res, "counters": dict(L.CNT), "hashseed": os.environ.get("PYTHONHASHSEED"), "pid": os.getpid()}, sys.stdout)
 
 # ========================================================================================== generators of cases
+def gen_history(rng):
+    """a pmf-style history: many weighted draws over ONE action set whose weights change from call to call (sometimes they stay),
+    with other calls in between -- what a learner does with its generator"""
+    n    = rng.choice([2, 2, 3, 3, 4, 5, 8])
+    seq  = gen_equal_members(rng, n) if rng.random() < .35 else gen_members(rng, n)
+    cont = rng.choice(["list", "list", "tuple"])
+    ms   = rng.choice([["choice"], ["choicew"], ["choice", "choicew"]])
+    style = rng.choice(["one-hot-moving", "any", "any", "epsilon-greedy"])
+    script, w = [], None
+    for t in range(rng.choice([2, 3, 5, 8, 12])):
+        if w is None or rng.random() < .8:
+            if style == "one-hot-moving":   w = [0] * n; w[rng.randrange(n)] = 1
+            elif style == "epsilon-greedy": w = [1 / 8 / (n - 1)] * n; w[rng.randrange(n)] = 7 / 8
+            else:                           w = gen_weights(rng, n)
+        script.append([rng.choice(ms), list(seq), list(w), cont])
+        if rng.random() < .3: script.append(gen_call(rng, small=True))
+    return script
+
 def gen_case(rng):
+    if rng.random() < .25:
+        return {"kind": "script", "seed": seed_spec(gen_seed(rng)), "script": gen_history(rng) + [["random"]], "noise": rng.randrange(10**6)}
     n = rng.choice([1, 2, 4, 8, 12, 16, 24])
     # the closing random() exposes the position in the stream with 30 bits, so two runs that differ cannot agree by chance
     return {"kind": "script", "seed": seed_spec(gen_seed(rng)), "script": [gen_call(rng) for _ in range(n)] + [["random"]], "noise": rng.randrange(10**6)}
@@ -567,6 +663,13 @@ def adversarial_protos(rng):
                   [0, 0, 3, 1], [2, 0, 0, 2], [0.0, 1.0], [0, 0.1, 0.2, 0.7], [1, 1, 1], [0, 5]):
             thr = [("threshold", s + d) for s in _dyadic_thresholds(list(accumulate(w)), sum(w)) for d in (-1, 0, 1)]
             add([m, [f"m{i}" for i in range(len(w))] if m == "choice" else list(range(10, 10 + len(w))), w, rng.choice(["list", "tuple"])], EXT + thr)
+        # equal members at several positions (the first of them without weight), and the same draw after an earlier weighted
+        # draw over the same members with other weights
+        for seq, w in ([[10, 11, 10], [0, 1, 1]], [["a", "b", "a"], [0.0, 0.5, 0.5]], [[1, 2, 1.0], [0, 0.25, 0.75]],
+                       [[5, 6, 5, 6, 5, 6], [0, 0.25, 0.25, 0, 0.5, 0]], [[7, 7], [0, 2]], [[True, 0, 1, 0.0], [0, 0, 3, 1]]):
+            thr = [("threshold", s + d) for s in _dyadic_thresholds(list(accumulate(w)), sum(w)) for d in (-1, 0)]
+            first = [1 if i == 0 else 0 for i in range(len(w))]
+            add([m, seq, w, rng.choice(["list", "tuple"])], EXT + thr, prefixes=[[], [[mm, seq, first, "list"]  for mm in ("choice", "choicew")]])
     G = EXT + [("u=smallest-positive", 1), ("threshold", 2**28), ("threshold", 2**29), ("threshold", 3 * 2**28)]
     for args in ([], [5, 2]):
         add(["gauss"] + args, G, prefixes=[[], [["gauss"], ["gauss"]], [["random"], ["gauss"], ["randint", 0, 5], ["gauss"]], [["gausses", 3], ["gausses", 1]]])
